@@ -15,7 +15,7 @@ import numpy as np
 import pandas as pd
 
 from sim import adapters, workload
-from sim.core import EndRun, canon, np_seed
+from sim.core import EndRun, canon, documented_refusal, np_seed
 
 PROP = "C14"
 LEVEL = "fault_enumeration"
@@ -310,6 +310,8 @@ def _run_single(ctx, name, cfg, k, events, pos, kind, base):
         try:
             _call(det, k, ev)
         except Exception as e:  # noqa: BLE001
+            if documented_refusal(e):
+                raise _VoidRun()
             fail("later_call_failed", ":later_call_rejected",
                  f"{name}: {where}: the valid call {i} ({ev[1]}) that follows now raises {type(e).__name__}: {str(e)[:120]}")
         ctx.sim_time += 1
